@@ -152,6 +152,12 @@ func NewPQIndex(dim int, distanceKind DistanceKind, M int, Nbits int) (*PQIndex,
 	if Nbits <= 0 || Nbits > 16 {
 		return nil, fmt.Errorf("parameter Nbits must be in [1,16]")
 	}
+	// Codes are stored one byte per subspace ([]uint8), so a codebook can have
+	// at most 256 entries; a larger Nbits would silently truncate codeword
+	// indices and score vectors against the wrong codeword.
+	if Nbits > 8 {
+		return nil, fmt.Errorf("parameter Nbits must be at most 8 (codes are stored as uint8)")
+	}
 
 	// Create distance calculator
 	distance, err := NewDistance(distanceKind)
